@@ -27,29 +27,21 @@ mod verif_kani_install_builder {
         b
     }
 
-    /// C19 (bounded: <= 17 files - two byte boundaries - one tag, any mask): remove_file(k) deletes
-    /// exactly file k: every surviving file keeps its association, mask length == ceil((n-1)/8),
-    /// bits beyond the file count are clear
-    #[kani::proof]
-    #[kani::unwind(19)]
-    #[kani::stub(std::collections::hash_map::RandomState::new, fixed_random_state)]
-    fn remove_file_shifts_bits_bounded() {
-        let n: usize = kani::any();
-        kani::assume(n >= 1 && n <= 17);
+    fn check_remove<const NF: usize>() {
         let k: usize = kani::any();
-        kani::assume(k < n);
+        kani::assume(k < NF);
         let m: [u8; 3] = kani::any();
-        let len = (n + 7) / 8;
-        let b = builder_with(n, &m[..len]);
+        let len = (NF + 7) / 8;
+        let b = builder_with(NF, &m[..len]);
         match b.remove_file(k) {
             Err(_) => assert!(false, "in-range removal must succeed"),
             Ok(b2) => {
-                assert!(b2.entries.len() == n - 1);
+                assert!(b2.entries.len() == NF - 1);
                 let nm = &b2.tags[0].bit_mask;
-                assert!(nm.len() == (n - 1 + 7) / 8, "mask length == ceil(files/8)");
+                assert!(nm.len() == (NF - 1 + 7) / 8, "mask length == ceil(files/8)");
                 let j: usize = kani::any();
                 kani::assume(j < 24);
-                if j < n - 1 {
+                if j < NF - 1 {
                     let oldj = if j < k { j } else { j + 1 };
                     assert!(bit(nm, j) == bit(&m[..len], oldj), "surviving file keeps its association");
                     assert!(b2.tags[0].has_file(j) == bit(&m[..len], oldj));
@@ -59,43 +51,62 @@ mod verif_kani_install_builder {
                 }
             }
         }
-        kani::cover!(n == 17 && k == 8);
-        kani::cover!(n == 9 && k == 0);
+        kani::cover!(k == NF - 1);
+        kani::cover!(k == 0);
     }
 
-    /// C19 (bounded: <= 17 files): add_file keeps every existing association and sizes every mask to
-    /// ceil(files/8); add_tag creates an all-clear mask of that size
+    /// C19 (bounded: exactly 17 files -> 16, one tag, any mask, any removed index): remove_file(k) deletes
+    /// exactly file k: every surviving file keeps its association, mask length == ceil(files/8),
+    /// bits beyond the file count are clear
     #[kani::proof]
     #[kani::unwind(19)]
     #[kani::stub(std::collections::hash_map::RandomState::new, fixed_random_state)]
-    fn add_file_and_tag_preserve_bits_bounded() {
-        let n: usize = kani::any();
-        kani::assume(n <= 16);
+    fn remove_file_shifts_bits_17() {
+        check_remove::<17>();
+    }
+
+    /// same with 9 files -> 8 (the mask shrinks from two bytes to one)
+    #[kani::proof]
+    #[kani::unwind(11)]
+    #[kani::stub(std::collections::hash_map::RandomState::new, fixed_random_state)]
+    fn remove_file_shifts_bits_9() {
+        check_remove::<9>();
+    }
+
+    fn check_add<const NF: usize>() {
         let m: [u8; 3] = kani::any();
-        let len = (n + 7) / 8;
-        let b = builder_with(n, &m[..len]);
+        let len = (NF + 7) / 8;
+        let b = builder_with(NF, &m[..len]);
         let b2 = b.add_file(String::new(), ContentKey::from_bytes([1u8; 16]), 99).add_tag(String::new(), TagType::Locale);
-        assert!(b2.entries.len() == n + 1 && b2.tags.len() == 2);
-        assert!(b2.tags[0].bit_mask.len() == (n + 1 + 7) / 8 && b2.tags[1].bit_mask.len() == (n + 1 + 7) / 8);
+        assert!(b2.entries.len() == NF + 1 && b2.tags.len() == 2);
+        assert!(b2.tags[0].bit_mask.len() == (NF + 1 + 7) / 8 && b2.tags[1].bit_mask.len() == (NF + 1 + 7) / 8);
         let j: usize = kani::any();
         kani::assume(j < 24);
-        if j < n {
+        if j < NF {
             assert!(bit(&b2.tags[0].bit_mask, j) == bit(&m[..len], j), "existing associations preserved");
         }
         if j >= len * 8 {
             assert!(!bit(&b2.tags[0].bit_mask, j), "new mask bytes start clear");
         }
         assert!(!bit(&b2.tags[1].bit_mask, j), "a new tag selects nothing");
-        let b3 = b2.associate_file_with_tag_by_index(n, 1);
-        match b3 {
+        match b2.associate_file_with_tag_by_index(NF, 1) {
             Ok(b3) => {
-                assert!(bit(&b3.tags[1].bit_mask, n) && b3.tags[1].has_file(n));
-                assert!(j == n || !bit(&b3.tags[1].bit_mask, j));
-                assert!(j >= n || bit(&b3.tags[0].bit_mask, j) == bit(&m[..len], j));
+                assert!(bit(&b3.tags[1].bit_mask, NF) && b3.tags[1].has_file(NF));
+                assert!(j == NF || !bit(&b3.tags[1].bit_mask, j));
+                assert!(j >= NF || bit(&b3.tags[0].bit_mask, j) == bit(&m[..len], j));
             }
             Err(_) => assert!(false),
         }
-        kani::cover!(n == 8);
-        kani::cover!(n == 16);
+        kani::cover!(true);
+    }
+
+    /// C19 (bounded: 8 existing files -> 9, the mask grows from one byte to two): add_file keeps every
+    /// existing association and sizes every mask to ceil(files/8); add_tag creates an all-clear mask;
+    /// associate sets exactly one bit
+    #[kani::proof]
+    #[kani::unwind(11)]
+    #[kani::stub(std::collections::hash_map::RandomState::new, fixed_random_state)]
+    fn add_file_and_tag_preserve_bits_8() {
+        check_add::<8>();
     }
 }
